@@ -1,5 +1,6 @@
 import Gonuts.Gen.Facts
 import Gonuts.Model.Token
+import Gonuts.Model.TokenWire
 /-!
   Ties between the facts extracted from `cashu/cashu.go` and what `Model.Token` uses (C14).
   Every theorem is closed by `rfl`/`decide`: when the source changes, the regenerated `Gen/Facts.lean`
@@ -45,6 +46,14 @@ theorem fields_ProofV4 : Gen.fields_ProofV4 =
 /-- `cashu.DLEQV4` ↔ `Model.Token.DLEQV4` (`e s r : Bytes`, none `omitempty`). -/
 theorem fields_DLEQV4 : Gen.fields_DLEQV4 =
     [("E", "[]byte", "e"), ("S", "[]byte", "s"), ("R", "[]byte", "r")] := rfl
+
+/-- The modelled marshallers (`Model.TokenWire`) take field names and `omitempty` from exactly these tags, in
+    declaration order. -/
+theorem wire_tags :
+    Gen.fields_Proof.map (·.2.2) = Wire.tagsProof ∧ Gen.fields_DLEQProof.map (·.2.2) = Wire.tagsDLEQProof ∧
+    Gen.fields_TokenV3.map (·.2.2) = Wire.tagsTokenV3 ∧ Gen.fields_TokenV3Proof.map (·.2.2) = Wire.tagsTokenV3Proof ∧
+    Gen.fields_TokenV4.map (·.2.2) = Wire.tagsTokenV4 ∧ Gen.fields_TokenV4Proof.map (·.2.2) = Wire.tagsTokenV4Proof ∧
+    Gen.fields_ProofV4.map (·.2.2) = Wire.tagsProofV4 ∧ Gen.fields_DLEQV4.map (·.2.2) = Wire.tagsDLEQV4 := by decide
 
 /-- `Unit.String()`: `Sat` ↦ `"sat"`, anything else `"unknown"`. -/
 theorem unitString_table : Gen.unit_String = [("Sat", unitString 0), ("default", unitString 1)] := rfl
